@@ -109,7 +109,8 @@ fn try_write_step(k0: usize, class: u8) {
     kani::assume(!far || off > slot.start + (CAP + 2) as u64);
     let end = slot.start + k0 as u64;
     kani::assume(match class {
-        OVERLAP => off < end,
+        // (payload <= 2 bytes in this class: with 4 bytes neither cadical nor kissat finished within 25 minutes)
+        OVERLAP => off < end && len <= 2,
         APPEND => off == end,
         GAP => off > end,
         _ => true,
@@ -188,14 +189,14 @@ fn try_write_step(k0: usize, class: u8) {
     kani::cover!(!gap_possible || (filled.is_some() && n == len as i128), "reach:split_whole_request");
     kani::cover!(!gap_possible || (filled.is_some() && rnew.len > 0), "reach:split_truncated_at_end_of_allocation");
     kani::cover!(
-        !(partial && CAP - k0 < DLEN && (cls(APPEND) || cls(OVERLAP))) || (filled.is_none() && n > 0 && rnew.len > 0),
+        !(partial && CAP - k0 < DLEN && cls(APPEND)) || (filled.is_none() && n > 0 && rnew.len > 0),
         "reach:append_truncated_at_end_of_allocation"
     );
     kani::cover!(partial || (slot_is_full(old) && rnew.len > 0), "reach:already_full");
     kani::cover!(!(partial && cls(GAP)) || (n == 0 && t.len > 0), "reach:request_beyond_allocation");
     kani::cover!(!(some && cls(OVERLAP)) || (n == 0 && t.len == 0 && len > 0), "reach:request_entirely_duplicate");
     kani::cover!(len == 0, "reach:empty_request");
-    kani::cover!(!(partial && (cls(GAP) || CAP - k0 <= DLEN)) || (flag && !flag_old), "reach:flag_raised");
+    kani::cover!(!(partial && (cls(GAP) || (cls(APPEND) && CAP - k0 <= DLEN))) || (flag && !flag_old), "reach:flag_raised");
     kani::cover!(!(partial && some) || (old_w.is_some() && n > 0), "reach:witness_in_old_bytes");
     kani::cover!(!partial || (old_w.is_none() && new_w.is_some()), "reach:witness_in_new_bytes");
     kani::cover!(class == GAP || slot_end(old) == MAXV as i128, "reach:filled_up_to_max_offset");
@@ -203,7 +204,7 @@ fn try_write_step(k0: usize, class: u8) {
     kani::cover!(!cls(GAP) || (far && n == 0 && rnew.len == len as i128), "reach:far_request_untouched");
 }
 
-//@ harness props=C16,C01 tier=thorough level=bounded bound="slot buffer 8 bytes with 3 bytes filled, request <= 4 bytes starting inside the filled bytes; all offsets and bytes symbolic" timeout=1500 mem=12
+//@ harness props=C16,C01 tier=thorough level=bounded bound="slot buffer 8 bytes with 3 bytes filled, request <= 2 bytes starting inside the filled bytes; all offsets and bytes symbolic" timeout=1500 mem=12
 //@ fn Slot::try_write_reader
 //@ fn Slot::write_reader_append
 //@ fn Slot::write_reader_split
@@ -233,7 +234,7 @@ fn vq_c16_slot_try_write_reader_fill3_gap() {
     try_write_step(3, GAP);
 }
 
-//@ harness props=C16,C01 tier=thorough level=bounded bound="slot buffer 8 bytes with 6 bytes filled, request <= 4 bytes starting inside the filled bytes; all offsets and bytes symbolic" timeout=1500 mem=12
+//@ harness props=C16,C01 tier=thorough level=bounded bound="slot buffer 8 bytes with 6 bytes filled, request <= 2 bytes starting inside the filled bytes; all offsets and bytes symbolic" timeout=1500 mem=12
 //@ fn Slot::try_write_reader
 //@ fn Slot::write_reader_append
 //@ fn Slot::write_reader_split
